@@ -175,6 +175,15 @@ func probe() {
 		r.ttl = ttl
 		emit(r.line()...)
 	}
+	// 4a. finding (fixed by 7ea8d4d): default TTL configured above the maximum
+	header("default-above-max")
+	emit("ca", "plug", "2592000", "2592000", "1", "7200", "3600")
+	emit("na", "-")
+	for _, ttl := range []int64{0, -1, 600, 3600, 3601} {
+		r := base()
+		r.ttl = ttl
+		emit(r.line()...)
+	}
 	// 4b. default TTL capped by the first chain certificate (minTTL) although the signer lives longer;
 	// bundle without a root certificate
 	header("capchain")
